@@ -422,7 +422,7 @@ def handlePolnetWith (F : Facts) (toks : List String) : String :=
       | "refused" => some (.refused, false) | "garbage" => some (.hsError, false)
       | "silent" => some (.silent, false) | "silenttls" => some (.silent, false)
       | "stalltls" => some (.silent, false) | "silentws" => some (.silent, false)
-      | "insecure" => some (.okPlain, true) | _ => none
+      | "insecure" | "insecurews" => some (.okPlain, true) | _ => none
     match secureCarrier carrier, kind with
     | some sec, some (k, ms) =>
       if ms && !sec then "bad-op"
